@@ -320,6 +320,79 @@ def run_batch(ev, rng):
     return out, bool(export_ok)
 
 
+# ---- Batch delegation sweep: every forwarded method, label by label, against the member itself ------------------------------
+BATCH_METHODS = {}
+for _name in ('sum', 'prod', 'min', 'max', 'mean', 'median', 'std', 'var', 'all', 'any', 'cumsum', 'cumprod'):
+    for _ax in (0, 1):
+        for _sk in (True, False):
+            BATCH_METHODS['%s_axis%d_skipna%d' % (_name, _ax, _sk)] = (lambda n, a, k: (lambda x: getattr(x, n)(axis=a, skipna=k)))(_name, _ax, _sk)
+for _name in ('std', 'var'):
+    BATCH_METHODS['%s_ddof1_noskip' % _name] = (lambda n: (lambda x: getattr(x, n)(axis=0, skipna=False, ddof=1)))(_name)
+    BATCH_METHODS['%s_ddof1' % _name] = (lambda n: (lambda x: getattr(x, n)(axis=0, ddof=1)))(_name)
+BATCH_METHODS.update({
+    'count0': lambda x: x.count(axis=0), 'count1': lambda x: x.count(axis=1),
+    'loc_min0': lambda x: x.loc_min(axis=0), 'loc_max1': lambda x: x.loc_max(axis=1), 'iloc_min1': lambda x: x.iloc_min(axis=1), 'iloc_max0': lambda x: x.iloc_max(axis=0),
+    'loc_min0_noskip': lambda x: x.loc_min(axis=0, skipna=False),
+    'add1': lambda x: x + 1, 'radd': lambda x: 1 + x, 'mul2': lambda x: x * 2, 'neg': lambda x: -x, 'abs': lambda x: abs(x), 'eq0': lambda x: x == 0, 'lt1': lambda x: x < 1, 'truediv': lambda x: x / 2,
+    'pow2': lambda x: x ** 2, 'rsub': lambda x: 10 - x,
+    'clip': lambda x: x.clip(lower=0, upper=2), 'isin': lambda x: x.isin((0, 1)), 'transpose': lambda x: x.transpose(), 'T': lambda x: x.T,
+    'duplicated0': lambda x: x.duplicated(), 'duplicated1': lambda x: x.duplicated(axis=1), 'drop_duplicated': lambda x: x.drop_duplicated(),
+    'roll': lambda x: x.roll(1, -1), 'roll_incl': lambda x: x.roll(-1, 1, include_index=True, include_columns=True), 'shift': lambda x: x.shift(1, 1), 'shift_fill': lambda x: x.shift(-1, fill_value=0),
+    'head1': lambda x: x.head(1), 'tail2': lambda x: x.tail(2),
+    'sort_index_desc': lambda x: x.sort_index(ascending=False), 'sort_columns_desc': lambda x: x.sort_columns(ascending=False),
+    'sort_values_first': lambda x: x.sort_values('a'), 'sort_values_desc': lambda x: x.sort_values('a', ascending=False),
+    'iloc_rows': lambda x: x.iloc[1:], 'iloc_cell_col': lambda x: x.iloc[:, 0], 'loc_col': lambda x: x.loc[:, ['a']], 'getitem': lambda x: x['a'], 'getitem_list': lambda x: x[['b', 'a']],
+    'drop_col': lambda x: x.drop['a'], 'drop_iloc_row': lambda x: x.drop.iloc[0],
+    'chain_sel_cumsum': lambda x: x[['a', 'b']].cumsum(), 'chain_add_cumprod_max': lambda x: (x + 1).cumprod().max(), 'chain_T_sum': lambda x: x.T.sum(),
+    'cov': lambda x: x.cov(),          # (Batch.rename names the Batch itself and Batch.unique wraps the arrays in Series: not member-wise maps, left out)
+})
+
+
+def _proj_any(v):
+    if isinstance(v, (sf.Frame, sf.Series)):
+        return P.proj(v)
+    if isinstance(v, np.ndarray):
+        return {'k': 'array', 'dt': P.enc_dtype(v.dtype), 'shape': list(v.shape), 'vals': P.enc_array(v.reshape(-1))}
+    return {'k': 'elem', 'v': P.enc(v)}
+
+
+def batch_map_event(rng):
+    nm = rng.randint(1, 3)
+    members = []
+    kinds = rng.choice(['f', 'f', 'if', 'i', 'fb'])
+    for m in range(nm):
+        nr, nc = rng.randint(1, 4), rng.randint(2, 3)
+        cols = [C.rand_column(rng, rng.choice(kinds), nr, 0.35) for _ in range(nc)]
+        f = {'index': C.rand_labels(rng, nr, 'str'), 'columns': [['s', 'abc'[j]] for j in range(nc)], 'cols': cols, 'name': ['s', 'm%d' % m]}
+        members.append((f, C.rand_layout(rng, f)))
+    name = rng.choice(sorted(BATCH_METHODS))
+    fn = BATCH_METHODS[name]
+    frames = [P.build_frame(f, lay) for f, lay in members]
+    direct = []
+    for fr in frames:
+        try:
+            direct.append([P.enc(fr.name), _proj_any(fn(fr))])
+        except Exception as e:
+            direct.append([P.enc(fr.name), {'k': 'err', 'cat': P.err_category(e)}])
+    via = []
+    mw = rng.choice([None, None, 2])
+    try:
+        b = sf.Batch(((fr.name, fr) for fr in frames), max_workers=mw, use_threads=True) if mw else sf.Batch((fr.name, fr) for fr in frames)
+        it = iter(fn(b).items())
+        while True:
+            try:
+                k, v = next(it)
+            except StopIteration:
+                break
+            via.append([P.enc(k), _proj_any(v)])
+    except Exception as e:
+        # the Batch is lazy: a member whose call raises stops the stream there with that error
+        via.append([direct[len(via)][0] if len(via) < len(direct) else ['s', 'ERROR'], {'k': 'err', 'cat': P.err_category(e)}])
+    # the stream ends at the first failing member: compare up to and including it
+    cut = next((i + 1 for i, d in enumerate(direct) if d[1].get('k') == 'err'), len(direct))
+    return {'kind': 'batch_map', 'method': name, 'members': [f for f, _ in members], 'direct': direct[:cut], 'via': via, 'workers': mw or 0}
+
+
 def main(ctx):
     quick = ctx.tier == 'quick'
     rng = ctx.rng
@@ -350,8 +423,15 @@ def main(ctx):
             bad_exports.append(ev)
         events.append(ev)
         ctx.count('V_batch_chain')
+    for i in range(500 if quick else 12000):
+        ev = batch_map_event(rng)
+        ev['leg'] = 'V'
+        events.append(ev)
+        ctx.count('V_batch_map')
     for k, ev in enumerate(events):
         ev['id'] = k
+        ev.setdefault('direct', [])
+        ev.setdefault('via', [])
         ev.setdefault('cs', {'op': 'none'})
         ev.setdefault('res', {'k': 'none'})
         ev.setdefault('members', [])
@@ -363,15 +443,17 @@ def main(ctx):
         if ev['id'] in rej:
             if ev['kind'] == 'quilt' and rej[ev['id']][0] == 'dtype' and ev['cs'].get('via') == 'tuple':
                 continue          # a tuple carries no dtype
-            if ev['kind'] == 'quilt':
+            if ev['kind'] == 'batch_map':
+                ctx.violation('V', 'Batch.%s differs from the method applied to each member: %s' % (ev['method'], rej[ev['id']][0]), case={'method': ev['method'], 'members': ev['members'], 'workers': ev['workers'], 'ops': []}, actual=ev['via'], clause=rej[ev['id']][0], expected=ev['direct'])
+            elif ev['kind'] == 'quilt':
                 ctx.violation(ev['leg'], 'a Quilt call differs from the same call on the concatenated Frame: ' + rej[ev['id']][0], case={'cs': ev['cs']}, actual=ev['res'], clause=rej[ev['id']][0], expected=rej[ev['id']][1])
             else:
                 ctx.violation('V', 'a Batch chain differs from the chain applied to each Frame: ' + rej[ev['id']][0], case={'members': ev['members'], 'ops': ev['ops']}, actual=ev['items'], clause=rej[ev['id']][0], expected=rej[ev['id']][1])
     for ev in bad_exports:
         ctx.violation('V', 'Batch.to_frame() is not the concatenation of the per-label results', case={'members': ev['members'], 'ops': ev['ops']}, actual=ev['items'], clause='batch_export')
     ctx.sample({'leg': 'V', 'event': {'cs': {k: v for k, v in events[nR]['cs'].items() if k != 'q'}}})
-    return ctx.finish(rule='M/R: members of sizes <<2, 1>> (thorough <<2, 1, 2>>) x both axes x retain on / off x every int / slice / 2-list / mask key on the Quilt axis x 4 keys on the opposite axis; every enumerated selection replayed on real Quilts (30% over store-backed Buses with max_persist None / 1 / 2). '
-                           'V: random Quilts (1-4 members of 1-3 positions, 1-3 opposite labels, 4 dtype kinds, random block layouts) x iloc / loc / getitem / to_frame / shape / labels / values / iter_series(_items) / iter_array / iter_tuple / iter_window / head; random Batch chains of 1-3 operations (selection, fillna, isna / notna, dropna, directional fill; direct or through apply; with and without max_workers) and their export')
+    return ctx.finish(rule='M/R: members of sizes <<2, 1>> (thorough <<2, 1, 2>>) x both axes x retain on / off x every int / slice / 2-list / mask key on the Quilt axis x 4 keys on the opposite axis; every enumerated selection replayed on real Quilts (30 percent over store-backed Buses with max_persist None / 1 / 2). '
+                           'V: random Quilts (1-4 members of 1-3 positions, 1-3 opposite labels, 4 dtype kinds, random block layouts) x iloc / loc / getitem / to_frame / shape / labels / values / iter_series(_items) / iter_array / iter_tuple / iter_window / head; random Batch chains of 1-3 operations (selection, fillna, isna / notna, dropna, directional fill; direct or through apply; with and without max_workers) and their export; Batch delegation law: %d forwarded methods / operators / chains (all reductions and cumulative functions x axis x skipna, ddof, loc/iloc min/max, operators, clip, isin, transpose, duplicated, roll, shift, sort_*, selection, drop) on members with missing values, label by label against the member itself' % len(BATCH_METHODS))
 
 
 def replay(rec):
